@@ -146,6 +146,14 @@ func rewriteExecLine(s *snap.Info, desktopFile, line string) (string, error) {
 func rewriteIconLine(s *snap.Info, line string) (string, error) {
 	icon := strings.SplitN(line, "=", 2)[1]
 
+	// ${SNAP} is only supported as the leading directory of an icon
+	// path. Anywhere else (glued to an icon name, or inside a path
+	// component) the variable substitution done after this check
+	// could yield a path outside of the snap.
+	if strings.Contains(strings.TrimPrefix(icon, "${SNAP}/"), "${SNAP}") {
+		return "", fmt.Errorf("icon %q uses ${SNAP} other than as the \"${SNAP}/\" path prefix", icon)
+	}
+
 	// If there is a path separator, assume the icon is a path name
 	if strings.ContainsRune(icon, filepath.Separator) {
 		if !strings.HasPrefix(icon, "${SNAP}/") {
